@@ -392,6 +392,29 @@ for _p, _f in (('C05', 'up'), ('C01', 'churn'), ('C09', 'churn'), ('C10', 'churn
 GLOBAL_ASPECTS = {'outcome'}
 
 
+# Round 3: what the regenerated ties (Tie B, DESIGN.md section 0 "Round 3") add to each claim. Appended to the level text.
+SOURCE_NOTES = {
+    'C01': 'Tie B (regenerated from scale_down.go and taint.go on every run): gen_reaperCands_eq / gen_forceCands_eq — the loop bodies of the two reapers, as translated from the source, select exactly the model\'s candidates; C01_source_reaper: a candidate is handed on only if unprotected, its time readable, not dry, age > soft and (empty or age > hard); gen_taintTime_eq / C01_source_taint_time: a time is returned only for a parsable value within the years 1-9999.',
+    'C02': 'Tie B (scale_lock.go): gen_lockLocked_eq / gen_lockUnlock_eq / gen_lockLock_eq — the three methods, as translated (unlock() spliced into locked()), are the model\'s; C02_source_lock: inside the cool-down locked() says yes and changes nothing, once it has elapsed it says no and leaves the lock released.',
+    'C03': 'Tie B (scale_down.go): gen_taintClamp_eq; C03_source_clamp — the translated head of scaleDownTaint taints min(asked, untainted - min_nodes) and refuses iff fewer than min_nodes are untainted.',
+    'C04': 'Tie B (scale_up.go): gen_clampedNodesToAdd_eq; C04_source_clamp — what the translated head of scaleUpCloudProviderNodeGroup goes on to request never exceeds min(max_nodes, cloud max), lands exactly on it when clamped, and is unchanged below it.',
+    'C05': 'Tie B (util.go): gen_calcPercentUsage_eq, gen_calcScaleUpDelta_vals/_sentinel — the translated arithmetic equals the model for every rounding function; C05_source_in_region: run in binary64 it gives N <= n + delta <= N + 1 in the proven region.',
+    'C06': 'Tie B (controller.go, util.go, scale_down.go): gen_bandSwitch_vals/_sentinel, C06_source_bands — the translated switch decides -fast / -slow / 0 / scale-up by band; C03_source_clamp gives the taint amount min(rate, untainted - min_nodes).',
+    'C09': 'Tie B (controller.go filterNodes): gen_classifyNode_eq; C09_source_cordoned — outside dry mode a cordoned node goes to the cordoned list and to no other.',
+    'C10': 'Tie B (scale_down.go): C01_source_reaper (a protected candidate is never handed on), C10_source_no_holdback (an eligible unprotected one is, whatever stands next to it: the verdict is per candidate).',
+    'C11': 'The assembly of the program (cmd/main.go) is run in the built program (stream assemble, hook cmd/verif_hooks.go) against Esc.assemble: assemble_dry, assemble_dry_other_entries_irrelevant; main_wiring (regenerated facts about func main): the controller gets --drymode and the assembled groups, nothing else. Tie B: C01_source_reaper / gen_forceAppend_eq — neither reaper hands anything on in dry mode.',
+    'C12': 'Assembly (stream assemble): assemble_cloud_own / assemble_cloud_other_entries_irrelevant — the cloud configuration of a group is made from its own entry; main_wiring.',
+    'C13': 'Tie B (util.go): gen_calcPercentUsage_eq — the translated percentage computation is the model\'s; gen_calcPercentUsage_sentinel_both.',
+    'C15': 'C15_scan_no_restamp_in_view: every UPDATE of a scan names a node that carries no escalator taint in that scan\'s view, or is a removal (C15_removal_lowers_count) — no two-step re-stamp inside one scan; monitored as C15.restampBad.',
+    'C16': 'Assembly (stream assemble): assemble_groups — the options handed to the controller are those of the file, entry by entry.',
+    'C17': 'Tie B (aws.go IncreaseSize): gen_increaseSize_eq; C17_source_dispatch — rejected before any call iff d <= 0 or current + d > max, otherwise exactly d to the fleet path or exactly current + d. Assembly: assemble_ready_timeout.',
+    'C19': 'Tie B (aws.go DeleteNodes): gen_deleteGuard_eq; C19_source_guard — refused as a whole iff it would breach the minimum. forever_stops_on_every_error + stream forever (the real RunForever): a not-in-group error ends the loop.',
+    'C20': 'forever_stops_on_every_error (regenerated facts about RunForever) + stream forever on the real RunForever: after a transient failure the loop goes on scanning, after a failed rebuild it returns (finding T5) and does not panic.',
+}
+for _p, _t in SOURCE_NOTES.items():
+    PROPS[_p]['level_text'] = PROPS[_p]['level_text'] + ' ' + _t + ' Where a regenerated piece no longer matches the model (the source was rewritten) the run falls back to the translation of the pinned tree and says so in the evidence; the correspondence is then the tie for that piece.'
+
+
 def diff_relevant(prop, d):
     """d is e.g. 'g0:removals' (a group-scan aspect of the hist/scenario streams), 'outcome', 'pre', 'reccount',
     'init:journal' (run-level aspects of those streams), or a bare aspect of a direct-call stream ('journal', 'ok', …).
